@@ -109,6 +109,14 @@ func VerifModes() {
 			nan = true
 		}
 	}
+	for i := range verifAllModes {
+		verifObserveInt("res."+string(verifAllModes[i]), int64(res[i]))
+		verifObserveInt("form."+string(verifAllModes[i]), int64(d[i].Form))
+		if d[i].Form == Finite {
+			verifObserveBig("coeff."+string(verifAllModes[i]), &d[i].Coeff)
+			verifObserveInt("exp."+string(verifAllModes[i]), int64(d[i].Exponent))
+		}
+	}
 	if sys || nan {
 		verifCover("modes.skipped")
 		return
